@@ -304,6 +304,33 @@ class SQuot:
     def __init__(self, a, b):
         self.a, self.b = a, b
 
+    def _cmp(self, o, op):
+        """comparison of the float quotient with a numeric constant: exact when the quotient is exactly representable
+        (|a| < 2**53 and b a constant power of two), outside the model otherwise"""
+        from fractions import Fraction
+        if isinstance(o, bool) or not isinstance(o, (builtins.int, builtins.float)):
+            return NotImplemented
+        bv = z3.simplify(self.b.e) if isinstance(self.b, SInt) else z3.IntVal(builtins.int(self.b))
+        if not (z3.is_int_value(bv) and bv.as_long() > 0 and bv.as_long() & (bv.as_long() - 1) == 0) or self.a.kind != "int":
+            raise OutsideModel("comparison of a float quotient whose divisor is not a constant power of two")
+        lim = 1 << 53
+        if not cur().decide(z3.And(self.a.e > -lim, self.a.e < lim)):
+            raise OutsideModel("comparison of a float quotient with a dividend beyond 2**53")
+        c = Fraction(o)
+        return SBool(op(self.a.e * c.denominator, c.numerator * bv.as_long()))
+
+    def __lt__(self, o):
+        return self._cmp(o, lambda x, y: x < y)
+
+    def __le__(self, o):
+        return self._cmp(o, lambda x, y: x <= y)
+
+    def __gt__(self, o):
+        return self._cmp(o, lambda x, y: x > y)
+
+    def __ge__(self, o):
+        return self._cmp(o, lambda x, y: x >= y)
+
     def trunc(self):
         a, b = self.a, self.b
         # float(a)/float(b) is the correctly rounded quotient only if a and b are exactly
